@@ -33,8 +33,34 @@ def apply_mutation(P, cls, rules, mu):
         r.first_match_alternation = mu[2]
     elif kind == "exclude":
         r.exclude_rule(rules[mu[2]])
+    elif kind == "failed_load":
+        # a grammar load that FAILS - in this class or in an unrelated one -: a syntax error (ParseError before anything is
+        # built), or an exception half-way through the construction (`=/` on a rule without definition).  It changes nothing
+        # of the rules under observation; what follows must take effect as usual.
+        tgt = cls if mu[1] % 2 == 0 else type("Elsewhere", (P.Rule,), {})
+        text = ['zq-a = "a"\r\n@@@ !!\r\n', 'zq-b = "a"\r\nzq-nowhere =/ "x"\r\n', 'zq-c = %x41\r\nzq-c = \r\n'][mu[2] % 3]
+        for call in (lambda: tgt.load_grammar(text, strict=False), lambda: tgt.create(text)):
+            try:
+                call()
+            except Exception:  # noqa - the failure is the point
+                pass
     else:
         raise ValueError(mu)
+
+
+def final_ast(gr, mus):
+    """the grammar the mutations lead to, computed on the AST (None when a mutation is not a plain definition / extension)"""
+    gr = [list(r) for r in gr]
+    for mu in mus:
+        if mu[0] in ("redefine", "assign", "redefine_text"):
+            gr[mu[1]][1] = mu[2]
+        elif mu[0] in ("extend", "extend_text"):
+            gr[mu[1]][1] = ("alt", [gr[mu[1]][1], mu[2]], False)
+        elif mu[0] == "failed_load":
+            pass
+        else:
+            return None
+    return [tuple(r) for r in gr]
 
 
 def gen_history(rng, gg):
@@ -67,6 +93,16 @@ def gen_history(rng, gg):
                 mus.append(("exclude", k, rng.randrange(k + 1, n)))
             else:
                 mus.append(("flag", k, True))
+    if rng.random() < 0.25:
+        # a failing load somewhere in the history (before the mutation whose effect is observed)
+        mus.insert(rng.randrange(len(mus)), ("failed_load", rng.randrange(2), rng.randrange(3)))
+    if rng.random() < 0.2:
+        # define by text, extend, then define again with the byte-identical text: the extension must be gone
+        k = rng.randrange(n)
+        alph = [x for x in sorted(G.alphabet_of(gr) or "ab") if x.isascii() and x.isalnum()] or ["b"]
+        e1 = ("lit", rng.choice(alph), False)
+        e2 = ("lit", rng.choice(alph) + rng.choice(alph), False)
+        mus += [("redefine_text", k, e1), ("extend_text", k, e2), ("redefine_text", k, e1)]
     if rng.random() < 0.3:
         # the same rule extended several times in a row (each `=/` must take effect, not only the first)
         k = rng.randrange(n)
@@ -126,6 +162,14 @@ def run_history(P, gr, strings, mus, warm=True, between=True):
 
 
 CORPUS = [
+    ([("r0", ("rep", 1, None, ("ref", 1)), None), ("r1", ("lit", "a", False), None)], ["abab", "aab", "ba"],
+     [("failed_load", 0, 0), ("redefine", 1, ("lit", "b", False))]),
+    ([("r0", ("rep", 0, None, ("ref", 1)), None), ("r1", ("lit", "a", False), None)], ["abab", "aab", "ba"],
+     [("failed_load", 1, 1), ("extend_text", 1, ("lit", "b", False))]),
+    ([("r0", ("rep", 0, None, ("ref", 1)), None), ("r1", ("lit", "a", False), None)], ["abab", "aab", "ba"],
+     [("failed_load", 0, 1), ("redefine_text", 1, ("lit", "ab", False))]),
+    ([("r0", ("rep", 1, None, ("ref", 1)), None), ("r1", ("lit", "a", False), None)], ["abab", "aab", "ba", "b"],
+     [("redefine_text", 1, ("lit", "a", False)), ("extend_text", 1, ("lit", "b", False)), ("redefine_text", 1, ("lit", "a", False))]),
     ([("r0", ("rep", 1, None, ("ref", 1)), None), ("r1", ("lit", "a", False), None)], ["abc", "cab", "abca", "bca"],
      [("extend_text", 1, ("lit", "b", False)), ("extend_text", 1, ("lit", "c", False))]),
     ([("r0", ("rep", 0, None, ("ref", 1)), None), ("r1", ("alt", [("lit", "a", False), ("lit", "aa", False)], False), None)], ["aabc", "abcb", "cc"],
@@ -169,6 +213,25 @@ def run(ctx):
         (cls, rules, warm_out, warm_api), (_, _, cold_out, cold_api), (_, _, direct_out, direct_api) = both
         base_cls, base_rules = G.build(P, gr)
         differs = False
+        # against a grammar FRESHLY BUILT in the final state (no mutation ever applied to it), where that state can be computed
+        # from the mutations alone
+        fin = final_ast(gr, mus)
+        if fin is not None:
+            try:
+                _fc, fin_rules = G.build(P, fin)
+            except Exception:  # noqa
+                fin_rules = None
+            if fin_rules is not None:
+                for (s, i, w0) in warm_out:
+                    f0 = ec.with_budget(ec.CASE_BUDGET_S, lambda: lib.py_lparse(P, fin_rules[0], s, i), None)
+                    evals += 1
+                    if f0 is not None and w0 != f0 and rep < 3:
+                        found = True
+                        rep += 1
+                        ctx.report("after mutations %s the grammar does not behave like one freshly built in the final state: source=%r offset=%d mutated=%r fresh=%r"
+                                   % ([m[:2] for m in mus], s, i, w0[:120], f0[:120]),
+                                   {"kind": "history", "grammar": gr, "strings": strings, "mutations": mus, "source": [ord(ch) for ch in s], "source_repr": repr(s),
+                                    "offset": i, "warm": w0, "fresh": f0, "final_grammar": fin}, key="history-final:" + lib.digest([gr, mus, s, i]))
         # against the twin on which NO request was made before the final state was reached
         for (s, i, w0), (_, _, d0) in zip(warm_out, direct_out):
             evals += 1
@@ -245,5 +308,9 @@ def replay(rp):
     _, _, c, ca = run_history(P, gr, rp["strings"], mus, warm=False)
     _, _, d, da = run_history(P, gr, rp["strings"], mus, warm=False, between=False)
     bad = [(a, b) for a, b in zip(w + wa, c + ca) if a != b] + [(a, b) for a, b in zip(w + wa[len(wa) - len(da):], d + da) if a != b]
+    fin = final_ast(gr, mus)
+    if fin is not None:
+        _fc, fin_rules = G.build(P, fin)
+        bad += [(x, lib.py_lparse(P, fin_rules[0], s, i)) for (s, i, x) in w if x != lib.py_lparse(P, fin_rules[0], s, i)]
     print("differences warm vs fresh build / vs the state reached without requests:", bad[:3])
     return 1 if bad else 0
